@@ -1,4 +1,5 @@
 from .common import run_property
+from symg import opvalidate
 
 TABLE = [
     dict(h="add_u64_spec", fn="bytes::add_u64", what="all u64 operands x all moduli {2,2^8,2^16,2^32,none}"),
@@ -32,5 +33,6 @@ if __name__ == "__main__":
                           "they are compared with the independent NumPy-style interpreter (symg/interp.py) on boundary vectors incl. 2^64, 2^64+1, 2^127, 2^128-1 for every node of every graph the graph-SMT checks build (translator validation: sampled, not solver-decided); "
                           "a mismatch there is reported by the graph-SMT checks as inconclusive and by `./check C10` (validation family) as a violation",
                           "128-bit symbolic x symbolic multiplication is in the thorough tier only (188 s)"],
-                 assumptions=[],
+                 assumptions=["supporting family (sampled, not solver-decided): %d-style differential of one-operation graphs, real SimpleEvaluator vs independent NumPy-style interpreter on boundary vectors, every node through Value::check_type, catch_unwind around every evaluation" % 0],
+                 extra=lambda chk: opvalidate.run(chk, "C10"),
                  explanation="Kani proves the modular-arithmetic and byte-decoding kernels every arithmetic operation of the evaluator is built from equal an independently written wrapping/masking specification for all operand values")
